@@ -321,12 +321,6 @@ def main_check(h, tier, seed, replay=None):
 
     # ---- P: proof obligations
     targets = h.VO_TARGETS or ['Properties/%s.vo' % pid, 'Tie/%s.vo' % pid]
-    if tier == 'thorough':
-        # from clean for this property's dependency cone is the whole tree: rebuild all
-        with open(os.path.join(WORK, 'make.lock'), 'w') as lk:
-            fcntl.flock(lk, fcntl.LOCK_EX)
-            ensure_makefile()
-            sh(['make', 'clean'], 300, cwd=COQ)
     rc, out, dt = make(targets)
     report['proof']['make_rc'] = rc
     report['proof']['make_s'] = round(dt, 1)
